@@ -113,6 +113,33 @@ def gen_worker_cases(ctx):
         reported = {str(p): some(gnames + ["a%d" % a["id"] for a in acts], rng.randint(0, 2)) for p in range(npeers)}
         add({"peers": [[] for _ in range(npeers)], "actors": acts, "grains": gr, "poison": poison, "reported": reported,
              "local_fail": some(gnames, 1) if rng.random() < 0.25 else [], "dep_host": rng.choice(["", "", "::1", "2001:db8::5"])})
+    # F3: a peer fails in the middle of the relocation while other peers survive, and its share holds actors
+    # of roles that (a) only the leader, (b) only another survivor, (c) nobody else advertises, next to role-less
+    # ones; the leader is the most loaded target, so phase 1 hands the role actors to the peer that then fails.
+    # (own random stream: the other families keep their inputs when this one changes)
+    import random as _random
+    r3 = _random.Random("C33-F3-%d" % ctx.seed)
+    n_f3 = 24 if ctx.thorough else 8
+    for _ in range(n_f3):
+        npeers = r3.randint(2, 3)
+        f = r3.randrange(npeers)
+        lead_only, other_only = r3.sample([1, 2, 3], 2)
+        proles = [[] for _ in range(npeers)]
+        proles[f] = [lead_only, other_only] + ([4] if r3.random() < 0.5 else [])
+        o = r3.choice([p for p in range(npeers) if p != f])
+        proles[o] = [other_only]
+        n_act = r3.randint(3, 9)
+        acts = [{"id": i + 1, "role": r3.choice([0, lead_only, lead_only, other_only, 4, 9]), "single": r3.random() < 0.1} for i in range(n_act)]
+        names = ["a%d" % a["id"] for a in acts]
+        gr = [{"id": i + 1, "disabled": r3.random() < 0.1, "eager": r3.random() < 0.5} for i in range(r3.randint(0, npeers))]
+        pois = names if r3.random() < 0.7 else r3.sample(names, max(1, len(names) // 2))
+        poison = {str(f): list(pois)}
+        if npeers == 3 and r3.random() < 0.3:
+            poison[str(o)] = r3.sample(names, 1)
+        add({"leader_roles": [lead_only] + ([4] if r3.random() < 0.3 else []), "peers": proles, "actors": acts, "grains": gr,
+             "poison": poison, "reported": {str(o): r3.sample(names, r3.randint(0, 1))},
+             "has_loads": True, "loads": [r3.randint(12, 20)] + [r3.randint(0, 3) for _ in range(npeers)],
+             "dep_host": r3.choice(["", "", "::1", "10.1.2.3"])})
     if ctx.thorough:
         for _ in range(6):
             add({"peers": [[]], "actors": actors(3), "grains": grains(4), "peers_error": True, "local_fail": ["g1"]})
@@ -669,7 +696,7 @@ def run(ctx):
     ctx.coverage.update({
         "evaluations": len(outs) + steps,
         "distinct_nontrivial": len(nontriv) + len(louts),
-        "rule": "worker: departed-node states (<=10 actors, <=14 grains, 0-3 peers, roles, singletons, disabled/eager grains) with failure scripts (poisoned batches per peer, per-item remote failures, local failures, peers unavailable); non-trivial = at least one injected failure. leader: label sequences of 12-33 steps over 3 addresses (duplicates, failed Tell, failed spawn, normal/failed/peers-error completion, crash, stale Terminated), every step compared",
+        "rule": "worker: departed-node states (<=10 actors, <=14 grains, 0-3 peers, roles, singletons, disabled/eager grains) with failure scripts (poisoned batches per peer, per-item remote failures, local failures, peers unavailable); a dedicated family where a peer fails mid-relocation while others survive and its share holds leader-only / other-survivor-only / unplaceable role actors; non-trivial = at least one injected failure. leader: label sequences of 12-33 steps over 3 addresses (duplicates, failed Tell, failed spawn, normal/failed/peers-error completion, crash, stale Terminated), every step compared",
         "worker_cases": len(outs), "worker_orders_reconstructed": len(orders), "worker_model_mismatches": len(wm_bad),
         "leader_sequences": len(louts), "leader_steps_compared": steps, "leader_ops": dict(ophist), "leader_mismatches": len(l_bad),
         "samples": [cases[3], (outs.get(3) or {}).get("events"), seqs[0]["ops"][:6]],
